@@ -71,7 +71,7 @@ def main():
             build_fail = [l for l in fails if "[build failed]" in l]
             report["existing_tests"] = "pass" if not [f for f in fails if f not in build_fail and f.strip() != "FAIL"] else "FAIL: " + "; ".join(fails[:5])
         # demo with the patch
-        demo_dir = os.path.join(wt, meta.get("demo_dir", "."))
+        demo_dir = os.path.join(wt, (meta.get("demo_dir", ".").split() or ["."])[0])
         demos = [f for f in glob.glob(out + "/*") if os.path.basename(f) not in ("patch.diff", "meta.json") and not f.endswith(".log") and not f.endswith(".md") and not f.endswith(".txt")]
         copied = []
         for f in demos:
